@@ -19,7 +19,7 @@ fn trial_batch(k: usize, h: usize, trials: usize, seed: u64, mix: u8) -> Outcome
     let enc = SourceBlockEncoder::new(0, &cfg, &data);
     let src = enc.source_packets();
     let mut out = Outcome { fails: vec![], wrong: vec![], trials };
-    for _ in 0..trials {
+    for trial in 0..trials {
         // mix 0: uniform over all 2^24 ESIs (so almost always repair only); 1: many source symbols; 2: repair only
         let nsrc = match mix {
             1 => rng.random_range(0..k),
@@ -42,7 +42,23 @@ fn trial_batch(k: usize, h: usize, trials: usize, seed: u64, mix: u8) -> Outcome
             esis.push(e);
         }
         let mut dec = SourceBlockDecoder::new(0, &cfg, (k * t) as u64);
-        match dec.decode(pkts) {
+        // every other trial delivers the same K+h symbols one packet at a time, in random order (a streaming receiver): the set
+        // counts as failed only if the decoder has not answered after the last packet - this exercises the state kept between
+        // decoding attempts; a set whose prefix was answered is decodable, so the meaning of a logged failure is unchanged
+        let answer = if trial % 2 == 1 {
+            pkts.shuffle(&mut rng);
+            let mut a = None;
+            for p in pkts {
+                a = dec.decode(std::iter::once(p));
+                if a.is_some() {
+                    break;
+                }
+            }
+            a
+        } else {
+            dec.decode(pkts)
+        };
+        match answer {
             None => {
                 esis.sort();
                 out.fails.push(esis);
